@@ -235,3 +235,42 @@ func StripIntConv(v ssa.Value) ssa.Value {
 		}
 	}
 }
+
+// Diff records that d = a - t: adds d <= a when 0 <= t is entailed and 0 <= d when t <= a is entailed.
+func (b *Bounds) Diff(d, a, t Term) {
+	zero := Term{IsConst: true}
+	if b.LE(zero, t, 0) {
+		b.Assert(d, a, 0)
+	}
+	if b.LE(t, a, 0) {
+		b.Assert(zero, d, 0)
+	}
+}
+
+// Couple records that s = x + t and d = a - t for the same t, hence s - a = x - d: every entailed bound on one
+// difference is asserted for the other (x < a - t  <=>  x + t < a).
+func (b *Bounds) Couple(s, x, d, a Term) {
+	get := func(p, q Term) (int64, bool) {
+		if p.IsConst || q.IsConst {
+			return 0, false
+		}
+		i, oki := b.idx[p.Sym]
+		j, okj := b.idx[q.Sym]
+		if !oki || !okj || b.d[i][j] >= inf {
+			return 0, false
+		}
+		return b.d[i][j], true
+	}
+	if c, ok := get(x, d); ok {
+		b.Assert(s, a, c)
+	}
+	if c, ok := get(d, x); ok {
+		b.Assert(a, s, c)
+	}
+	if c, ok := get(s, a); ok {
+		b.Assert(x, d, c)
+	}
+	if c, ok := get(a, s); ok {
+		b.Assert(d, x, c)
+	}
+}
